@@ -10,5 +10,6 @@ CONSTANTS
   RSet = {}
   BoxCodes = {}
   Emit = FALSE
+  Far = @FAR@
 POSTCONDITION Accepted
 CHECK_DEADLOCK FALSE
